@@ -269,9 +269,12 @@ def gen_items(rng, depth, kind, budget, allow):
     return items
 
 
-def gen_program(rng, size=14, allow=('lambda', 'comp', 'assign')):
+def gen_program(rng, size=14, allow=('lambda', 'comp', 'assign'), prelude=0.6):
     for _ in range(200):
         prog = gen_items(rng, 0, 'module', [size], allow)
+        if rng.random() < prelude:
+            # most real programs bind what they use: start with module-level bindings
+            prog = [{'k': 'bind', 'x': x} for x in NAMES if rng.random() < 0.8] + prog
         src, occs = plain(prog)
         try:
             compile(src, '<gen>', 'exec')
